@@ -4,6 +4,7 @@ import (
 	"errors"
 	"fmt"
 	"io"
+	"math"
 	"math/big"
 	"reflect"
 	"regexp"
@@ -805,10 +806,16 @@ func integer(sign int64, s string) (Integer, error) {
 }
 
 func float(sign float64, s string) (Float, error) {
-	bf, _, _ := big.ParseFloat(s, 10, 0, big.ToZero)
+	bf, _, err := big.ParseFloat(s, 10, 0, big.ToZero)
+	if err != nil {
+		return 0, err
+	}
 	bf.Mul(big.NewFloat(sign), bf)
 
 	f, _ := bf.Float64()
+	if math.IsInf(f, 0) {
+		return 0, exceptionalValueFloatOverflow
+	}
 	return Float(f), nil
 }
 
